@@ -413,3 +413,154 @@ def _check_duplicates(ctx, R, f, loop, name):
                   '`%s` concatenates a second selection over the same status set (%s) without excluding the candidates '
                   'already in %s: a candidate can be excluded twice in one step'
                   % (stmt_text(st), '|'.join(sorted(x for x in new_states if x)), name))
+
+
+# ---------------------------------------------------------------------------
+# R03b  defeat-remaining sweeps only when the seats are filled
+# ---------------------------------------------------------------------------
+
+def _exit_formulas(ctx, ri, atoms):
+    """[(anchor node, formula that holds when the main loop is left there)]"""
+    from ..pathfacts import simplify
+    f, cfg = ri.count, ri.cfg
+    loop = ri.main_loop()
+    out = []
+    if not (isinstance(loop.test, ast.Constant) and loop.test.value is True):
+        out.append((loop, simplify(('not', atoms.formula(loop.test)))))
+    for n in ast.walk(loop):
+        if isinstance(n, ast.Break):
+            inner = n.parent
+            while inner is not None and not isinstance(inner, (ast.For, ast.While)):
+                inner = inner.parent
+            if inner is not loop:
+                continue
+            # conjunction of the enclosing if-tests between the break and the loop
+            conj = []
+            child = n
+            p = n.parent
+            special = None
+            while p is not None and p is not loop:
+                if isinstance(p, ast.If):
+                    if any(child is b for b in p.body):
+                        conj.append(atoms.formula(p.test))
+                        sp = _seats_filled_by_electing(ctx, f, p, n)
+                        if sp:
+                            special = sp
+                    elif any(child is b for b in p.orelse):
+                        conj.append(('not', atoms.formula(p.test)))
+                child = p
+                p = p.parent
+            if special:
+                conj.append(('lit', 'S', False))
+            out.append((n, simplify(('and', conj)) if conj else ('const', True)))
+    return out
+
+
+def _seats_filled_by_electing(ctx, f, ifnode, brk):
+    """`if len(C.elected()) + len(L) >= E.nSeats: for c in L: c.elect(..); break` : after the loop the
+    seats are filled (every member of L is hopeful and gets elected)"""
+    a = Atoms(ctx, f)
+    t = ifnode.test
+    if not (isinstance(t, ast.Compare) and len(t.ops) == 1 and isinstance(t.ops[0], ast.GtE) and ctx.canon(t.comparators[0], f) == 'E.nSeats'
+            and isinstance(t.left, ast.BinOp) and isinstance(t.left.op, ast.Add)):
+        return False
+    parts = [t.left.left, t.left.right]
+    L = None
+    for p in parts:
+        if _is_len_of(p, lambda x: isinstance(x, ast.Name)):
+            L = p.args[0].id
+    if L is None or not any(a._len_sel(p, 'elected') for p in parts):
+        return False
+    loops = [s for s in ifnode.body if isinstance(s, ast.For) and isinstance(s.iter, ast.Name) and s.iter.id == L]
+    return bool(loops) and body_always_calls(ctx, f, loops[0], ('elect',)) and deriv(ctx).states(loops[0].iter, f) == frozenset(['hopeful'])
+
+
+def _entails_done(formula):
+    """does the formula entail (not G) or (not S)?  i.e. no model has G and S both true"""
+    from ..pathfacts import _atoms_of, _eval
+    atoms = sorted(_atoms_of(formula, set()), key=repr)
+    if len(atoms) > 10:
+        return False
+    for bits in range(1 << len(atoms)):
+        env = {a_: bool(bits >> i & 1) for i, a_ in enumerate(atoms)}
+        if _eval(formula, env):
+            g = env.get(('lit', 'G'), True)
+            s = env.get(('lit', 'S'), True)
+            if g and s:
+                return False
+    return True
+
+
+def r03b_defeat_remaining(ctx):
+    R = 'R03b'
+    from .loops import _atoms
+    n = 0
+    for ri in rules(ctx):
+        f, cfg = ri.count, ri.cfg
+        atoms = _atoms(ctx, f)
+        a = Atoms(ctx, f)
+        for loop in _defeat_loops(ctx, f):
+            if not is_selector_call(ctx, f, loop.iter, 'hopeful'):
+                continue
+            n += 1
+            what = 'the hopefuls left at the end are defeated only when every seat is filled (otherwise they are elected)'
+            dcalls = [c for c in attr_calls_in(loop, ('defeat',))]
+            head = cfg.of_stmt[loop]
+            # (i)/(ii): dominated by not(len(elected) < nSeats) / len(elected) >= nSeats
+            ok = False
+            how = ''
+            for t in cfg.nodes:
+                if t.kind != 'test' or not isinstance(t.ast, ast.If):
+                    continue
+                tt = t.ast.test
+                if isinstance(tt, ast.Compare) and len(tt.ops) == 1 and a._len_sel(tt.left, 'elected') and ctx.canon(tt.comparators[0], f) == 'E.nSeats':
+                    lab = None
+                    if isinstance(tt.ops[0], ast.Lt):
+                        lab = False
+                    elif isinstance(tt.ops[0], ast.GtE):
+                        lab = True
+                    if lab is None:
+                        continue
+                    dn = [cfg_node_of(ctx, f, c) for c in dcalls]
+                    if all(x not in cfg.reach([cfg.entry], edge_ok=lambda p, q, l, t=t, lab=lab: not (p is t and l is lab), include_start=True) for x in dn):
+                        ok, how = True, 'each defeat is on the %s edge of `%s`' % (lab, unparse(tt))
+            if not ok:
+                # (iii) unconditional defeat-all: preceded by `if len(C.hopeful()) <= E.seatsLeftToFill(): <elect-all sweep>` and every
+                # way out of the main loop entails "seats filled or not more hopefuls than seats left"
+                anchor = loop
+                if isinstance(loop.parent, ast.If) and is_selector_call(ctx, f, loop.parent.test, 'hopeful') and loop.parent.body == [loop]:
+                    anchor = loop.parent          # `if C.hopeful(): <sweep>`
+                blk = None
+                for fld in ('body', 'orelse'):
+                    b = getattr(anchor.parent, fld, None)
+                    if isinstance(b, list) and any(x is anchor for x in b):
+                        blk = b
+                prev = None
+                if blk is not None:
+                    i = [k for k, x in enumerate(blk) if x is anchor][0]
+                    prev = blk[i - 1] if i > 0 else None
+                fill = isinstance(prev, ast.If) and atoms.formula(prev.test) == ('lit', 'G', False) and not prev.orelse \
+                    and len(prev.body) == 1 and isinstance(prev.body[0], ast.For) and is_selector_call(ctx, f, prev.body[0].iter, 'hopeful') \
+                    and body_always_calls(ctx, f, prev.body[0], ('elect',))
+                after_loop = anchor.parent is f.node and anchor.lineno > ri.main_loop().end_lineno
+                exits = _exit_formulas(ctx, ri, atoms)
+                bad_exits = [x for x, phi in exits if not _entails_done(phi)]
+                # nothing between the loop and the fill-test changes hopeful/elected counts (un-pending does not)
+                between_ok = True
+                if after_loop and blk is not None and prev is not None:
+                    li = [k for k, x in enumerate(blk) if x is ri.main_loop()]
+                    if li:
+                        for s in blk[li[0] + 1: blk.index(prev)]:
+                            for c in ast.walk(s):
+                                if isinstance(c, ast.Call) and isinstance(c.func, ast.Attribute) and c.func.attr in ('elect', 'defeat', 'unelect'):
+                                    between_ok = False
+                ok = fill and after_loop and not bad_exits and between_ok
+                how = 'preceded by `if len(C.hopeful()) <= E.seatsLeftToFill(): elect all`; all %d way(s) out of the main loop entail ' \
+                      '"seats filled or hopefuls <= seats left"' % len(exits)
+                if not ok:
+                    how = 'the defeat-all sweep at line %d is not justified: %s' % (
+                        loop.lineno, 'no elect-remaining step precedes it' if not fill else
+                        ('the main loop can be left at line %d while seats and spare hopefuls remain' % bad_exits[0].lineno if bad_exits
+                         else 'statements between the loop and the sweep change the counts'))
+            ctx.check(ok, R, loop, f, what, how, how)
+    ctx.floor(R, 'defeat-remaining sweeps', n, 8)
